@@ -841,7 +841,7 @@ func RWordSib(c *core.Ctx) {
 // ---------------------------------------------------------------------------
 
 func RUnionRet(c *core.Ctx) {
-	c.Rule("R-UNIONRET", "inside the loop over c.categories in charInCategories every return statement returns the constant true; the negative answer is given only after all categories were examined", 3)
+	c.Rule("R-UNIONRET", "inside the loop over c.categories in charInCategories every return statement returns the constant true; the negative answer is given only after all categories were examined", 1)
 	p := c.P
 	syn := p.Pkg("syntax")
 	info := syn.TypesInfo
